@@ -894,6 +894,9 @@ func (e *Enc) block(b *ssa.BasicBlock) {
 		li.gIn = g
 		entryCtx := e.ctx(li.entry, fmt.Sprintf("loop %d entry", li.ord))
 		e.loopPos(entryCtx, li)
+		lb := &blockState{e: e, b: b, g: g, st: st}
+		lb.ghostAt(fmt.Sprintf("loop %d entry", li.ord), b.Instrs[0], nil)
+		g = lb.g
 		c := e.ctx(st, fmt.Sprintf("loop %d init", li.ord))
 		e.loopPos(c, li)
 		c.LoopEntry = entryCtx
@@ -1046,18 +1049,20 @@ func (e *Enc) finish() {
 			}
 		}
 	}
-	if len(e.panics) > 0 {
-		var in []edge
-		for _, p := range e.panics {
-			in = append(in, edge{guard: p.guard, st: p.st})
-		}
-		g, st := e.merge("xexit", in)
-		if e.spec == nil || len(e.spec.XEnsures) == 0 {
-			// already asserted at each panic site as "no panic"
-		} else {
-			c := e.ctx(st, "ensures_on_panic")
+	if len(e.panics) > 0 && e.spec != nil && len(e.spec.XEnsures) > 0 {
+		// one obligation per panic site: failures name the site
+		for k, p := range e.panics {
+			c := e.ctx(p.st, "ensures_on_panic")
+			pos := fn.Pos()
+			if p.from != nil && len(p.from.Instrs) > 0 {
+				for _, ins := range p.from.Instrs {
+					if ins.Pos().IsValid() {
+						pos = ins.Pos()
+					}
+				}
+			}
 			for i, en := range e.spec.XEnsures {
-				e.assert(g, "xpost."+clauseName(en, i), "xpost", c.boolT(en.Expr), en.Src, fn.Pos())
+				e.assert(p.guard, fmt.Sprintf("xpost.%s@%d", clauseName(en, i), k+1), "xpost", c.boolT(en.Expr), en.Src, pos)
 			}
 		}
 	}
